@@ -105,17 +105,23 @@ pub fn word_dict(words: &[String]) -> MutableDictionary {
     d
 }
 
-/// Independent index -> (line, UTF-16 column) conversion: lines end at '\n',
-/// '\r' is an ordinary character, columns count UTF-16 code units.
+/// Does a line end after the character at `i`?  The editor's rule is the LSP specification's:
+/// lines end at "\n", "\r\n" and at a "\r" that no "\n" follows.  (The "\r" of "\r\n" is an
+/// ordinary character of its line, in a column nobody can put a cursor behind.)
+fn ends_line(source: &[char], i: usize) -> bool {
+    source[i] == '\n' || (source[i] == '\r' && source.get(i + 1) != Some(&'\n'))
+}
+
+/// Independent index -> (line, UTF-16 column) conversion, columns count UTF-16 code units.
 pub fn index_to_pos(source: &[char], index: usize) -> (u32, u32) {
     let mut line = 0u32;
     let mut col = 0u32;
-    for c in &source[..index.min(source.len())] {
-        if *c == '\n' {
+    for i in 0..index.min(source.len()) {
+        if ends_line(source, i) {
             line += 1;
             col = 0;
         } else {
-            col += c.len_utf16() as u32;
+            col += source[i].len_utf16() as u32;
         }
     }
     (line, col)
@@ -130,7 +136,7 @@ pub fn pos_to_index(source: &[char], line: u32, col: u32) -> Option<usize> {
         if l == line && c == col {
             return Some(i);
         }
-        if *ch == '\n' {
+        if ends_line(source, i) {
             if l == line {
                 return None;
             }
